@@ -30,6 +30,11 @@ var zzC15Shapes = [][]zzLockReq{
 	{{Read: []string{"x", "y"}}, {Read: []string{"x"}}, {Write: []string{"y"}}},
 	{{Read: []string{"x", "y"}}, {Read: []string{"y"}}, {Write: []string{"x"}}},
 	{{Read: []string{"x", "y"}, Write: []string{"z"}}, {Read: []string{"x"}, Write: []string{"z"}}, {Write: []string{"y"}}},
+	// an account named in both sets of one request (what the commander does for every source)
+	{{Read: []string{"x"}}, {Read: []string{"x"}, Write: []string{"x"}}},
+	{{Read: []string{"x"}, Write: []string{"x"}}, {Read: []string{"x"}}},
+	{{Read: []string{"x"}, Write: []string{"x"}}, {Read: []string{"x"}, Write: []string{"x"}}},
+	{{Read: []string{"x", "y"}}, {Read: []string{"x", "y"}, Write: []string{"y"}}, {Read: []string{"y"}}},
 }
 
 func ZZ_C15N() int { return len(zzC15Shapes) }
